@@ -81,6 +81,8 @@ class AssemblyManager(object):
         references = record.annotations.get("references", [])
         for feature in record.features:
             for i, ref in enumerate(feature.qualifiers.get("citation", [])):
+                if not isinstance(ref, six.string_types):
+                    continue  # already de-referenced (same record supplied twice)
                 match = self._CITATION_RX.match(ref)
                 if match is None:
                     raise ValueError("invalid citation: '{}'".format(ref))
